@@ -35,7 +35,11 @@ func hVerdict(d, c string) int {
 		return v
 	}
 	vTag("verdict_" + d + "_" + c)
-	v := vChoice(2 + hVerdictErrs)
+	n := 2
+	if d == "d0" {
+		n += hVerdictErrs // evaluation errors: first descriptor only (keeps the matrix small)
+	}
+	v := vChoice(n)
 	hVerdicts[k] = v
 	return v
 }
@@ -99,6 +103,9 @@ func hDescIndex(id string) int {
 
 func hNum(name string, lo, hi int) *int {
 	vTag(name)
+	if m := vParam("num", 2); hi > m {
+		hi = m
+	}
 	x := vRange(lo, hi)
 	return &x
 }
@@ -136,6 +143,7 @@ var hGroupNames = []string{"A", "B"}
 // hGenRequirement: rule + source. Source: from A | from B | from_nested (1..nest children, each `from`) |
 // (malformed=1) both from and from_nested | neither.
 func hGenRequirement(name string, shapes, nest, malformed int) *SubmissionRequirement {
+	cshapes := vParam("cshapes", 2) // rule shapes of nested requirements
 	r := &SubmissionRequirement{Name: name}
 	hGenRule(r, shapes)
 	n := 2
@@ -154,8 +162,8 @@ func hGenRequirement(name string, shapes, nest, malformed int) *SubmissionRequir
 	case 0, 1:
 		r.From = hGroupNames[src]
 	case 2:
-		for i, k := 0, vLen(1, nest); i < k; i++ {
-			r.FromNested = append(r.FromNested, hGenRequirement(name+"."+string(rune('0'+i)), shapes, 0, 0))
+		for i, k := 0, vLen(vParam("nestmin", 2), nest); i < k; i++ {
+			r.FromNested = append(r.FromNested, hGenRequirement(name+"."+string(rune('0'+i)), cshapes, 0, 0))
 		}
 	case 3:
 		r.From = "A"
@@ -365,6 +373,12 @@ func hCheckSelection(id string, def PresentationDefinition, wallet []vc.Verifiab
 		}
 	}
 	if hSharedCredential(def, wallet) {
+		for _, r := range def.SubmissionRequirements {
+			if hPanicsToday(r) {
+				vCover("skipped-shared-credential-with-pick-without-max")
+				return // keeps finding identities (site, class) apart; re-examined once pick without max is repaired
+			}
+		}
 		vClass("a credential satisfies several descriptors")
 	}
 	vAssert(hDefinitionHolds(def, in), id+".selection_complete: the mapped descriptors do not satisfy the definition's submission requirements (partial selection)")
